@@ -619,3 +619,351 @@ Proof.
   exact (conj (proj1 ex8_facts) (conj (proj1 (proj2 ex8_facts)) (conj (proj2 (proj2 ex8_facts)) ex8_by_theorem))).
 Qed.
 Print Assumptions C05_example_emission_by_theorem.
+
+
+(** ** the round trip on REAL registries: one-step identity (Model/Program1.v, Proofs/Ident1.v,
+    SourceRoundTrip1.v, SourceSkeleton1.v, RegistryOf1Sound.v, Program1Examples.v)
+
+    [RegistryOf] asks for injective labels in [canon] form (Box erased everywhere, VecDeque = Vec).
+    scale-info interns by [TypeId::of::<T::Identity>()], ONE step of [Identity] at the top of the
+    type ([tid_key]: [Box<T>] -> TypeId of [T], [Vec<T>] / [VecDeque<T>] -> [[T]], [String] -> [str],
+    anything else -> itself), so a program that mentions [Vec<Box<T>>] and [Vec<T>], [Box<Vec<T>>]
+    and [Vec<T>], [Box<Box<T>>] and [T], [Foo<Box<T>>] and [Foo<T>] gets two entries with equal
+    content and one [canon] label: [RegistryOf] is false of that registry.
+    [RegistryOf1 defs L r]: labels are closed source types in [ident1] normal form (the top
+    constructor normalised as the interning key is - [C05_ident1_is_the_interning_key] -, nothing
+    below it), INJECTIVE; every entry is the derive's entry for [peel1] of its label (all outer
+    boxes removed: [Box<T>::type_info] delegates), the id of a child type [x] being the id labelled
+    [ident1 x]; unlabelled entries are the bit-order markers.  Real registries, identity duplicates
+    included, satisfy it: [registry_of1b] is sound ([C05_registry_of1b_sound]) and is evaluated on
+    every generated case as [hyp_registry_of1] (Corr/RunC05.v) with the labels of the harness
+    interner (which the derive tier compares with scale-info's real derive).
+    The coincidence-freeness of the quantifier is restated on ids, as properties.jsonl words it
+    ([instantiation_cf1]: no argument is interned under the id of a non-parameter component,
+    the arguments of non-skipped parameters are interned under pairwise distinct ids, no parameter
+    directly under Box / Cow); it is IMPLIED by [instantiation_cf] ([C05_cf_implies_cf1]).  The
+    hypothesis [map canon args = args] is gone: the arguments of a label are as written. *)
+From V Require Import Model.Program1 Proofs.Ident1 Proofs.SourceRoundTrip1 Proofs.SourceSkeleton1
+  Proofs.RegistryOf1Sound Proofs.Program1Examples.
+
+(** [ident1] is a normal form for exactly the key the registry interns by *)
+Theorem C05_ident1_is_the_interning_key :
+  forall a b : src, ident1 a = ident1 b <-> tid_key a = tid_key b.
+Proof. exact ident1_key. Qed.
+Print Assumptions C05_ident1_is_the_interning_key.
+
+(** ... it refines [canon] (two types with one id have one [canon] form), is idempotent, and
+    keeps the content type *)
+Theorem C05_ident1_facts :
+  forall t : src, canon (ident1 t) = canon t /\ ident1 (ident1 t) = ident1 t /\ peel1 (ident1 t) = peel1 t.
+Proof. exact ident1_facts. Qed.
+Print Assumptions C05_ident1_facts.
+
+Theorem C05_cf_implies_cf1 :
+  forall defs d args, instantiation_cf defs d args = true -> instantiation_cf1 defs d args = true.
+Proof. exact cf_cf1. Qed.
+Print Assumptions C05_cf_implies_cf1.
+
+(** [C05_skeleton_is_source] on real registries *)
+Theorem C05_skeleton_is_source1 :
+  forall (defs : list sdef) (L : N -> option src) (r : registry) (s : settings) (order_tp : bool -> tpath),
+  RegistryOf1 defs L r ->
+  (forall sd, In sd defs -> def_okb s sd = true) ->
+  prelude_okb s = true ->
+  order_resolves s order_tp ->
+  forall (d : nat) (sd : sdef) (args : list src),
+  nth_error defs d = Some sd ->
+  instantiation_cf1 defs sd args = true ->
+  forallb (fun f => no_cow_cow (sf_ty f)) (def_sfields sd) = true ->
+  compact_fields_okb1 defs sd args = true ->
+  box_names_okb defs sd = true ->
+  forall t : ty, entry_of1 defs L r (SApp d args) t ->
+  forall flat ir, create_type_ir r s t flat = Ok (Some ir) ->
+  erase_ids ir = ir_of_source defs s order_tp sd.
+Proof. exact skeleton_full1. Qed.
+Print Assumptions C05_skeleton_is_source1.
+
+(** the entry may be one scale-info registered for a boxed form of the instantiation
+    ([Box<Box<Foo<T>>>]: its own id, the content of [Foo<T>]) *)
+Theorem C05_skeleton_is_source1_boxed :
+  forall (defs : list sdef) (L : N -> option src) (r : registry) (s : settings) (order_tp : bool -> tpath),
+  RegistryOf1 defs L r ->
+  (forall sd, In sd defs -> def_okb s sd = true) ->
+  prelude_okb s = true ->
+  order_resolves s order_tp ->
+  forall (d : nat) (sd : sdef) (args : list src),
+  nth_error defs d = Some sd ->
+  instantiation_cf1 defs sd args = true ->
+  forallb (fun f => no_cow_cow (sf_ty f)) (def_sfields sd) = true ->
+  compact_fields_okb1 defs sd args = true ->
+  box_names_okb defs sd = true ->
+  forall (c : src) (t : ty), peel1 c = SApp d args -> entry_of1 defs L r c t ->
+  forall flat ir, create_type_ir r s t flat = Ok (Some ir) ->
+  erase_ids ir = ir_of_source defs s order_tp sd.
+Proof. exact skeleton_full1_entry. Qed.
+Print Assumptions C05_skeleton_is_source1_boxed.
+
+Theorem C05_fields_read_as_source1 :
+  forall defs L r s (order_tp : bool -> tpath),
+  RegistryOf1 defs L r -> (forall sd, In sd defs -> def_okb s sd = true) ->
+  prelude_okb s = true -> order_resolves s order_tp -> render_okb s defs = true ->
+  forall d sd args, nth_error defs d = Some sd ->
+  instantiation_cf1 defs sd args = true ->
+  forallb (fun f => no_cow_cow (sf_ty f)) (def_sfields sd) = true ->
+  compact_fields_okb1 defs sd args = true -> box_names_okb defs sd = true ->
+  forallb (fun f => apps_okb defs (sf_ty f) && field_conv_okb f) (def_sfields sd) = true ->
+  forall t, entry_of1 defs L r (SApp d args) t ->
+  forall flat ir, create_type_ir r s t flat = Ok (Some ir) ->
+  Forall2 (fun sf fi =>
+             fi_pty (alloc_segs s) fi =
+             field_pty defs (s_root s) (alloc_segs s) (segs_lead_of (opt_toks (s_compact s)))
+                       (segs_lead_of (opt_toks (s_bits s)))
+                       (fun lsb => tpath_pty (alloc_segs s) (order_tp lsb)) sf)
+          (def_sfields sd) (kind_fields (ti_kind ir)).
+Proof. exact fields_read_as_source1. Qed.
+Print Assumptions C05_fields_read_as_source1.
+
+(** two instantiations of one definition - [Foo<Box<u16>>] and [Foo<u16>] included, which are two
+    entries of a real registry - have the same erased IR *)
+Theorem C05_one_item1 :
+  forall defs L r s (order_tp : bool -> tpath),
+  RegistryOf1 defs L r -> (forall sd, In sd defs -> def_okb s sd = true) ->
+  prelude_okb s = true -> order_resolves s order_tp ->
+  forall d sd, nth_error defs d = Some sd ->
+  forallb (fun f => no_cow_cow (sf_ty f)) (def_sfields sd) = true -> box_names_okb defs sd = true ->
+  forall args1 args2 t1 t2 flat1 flat2 ir1 ir2,
+  instantiation_cf1 defs sd args1 = true -> compact_fields_okb1 defs sd args1 = true ->
+  instantiation_cf1 defs sd args2 = true -> compact_fields_okb1 defs sd args2 = true ->
+  entry_of1 defs L r (SApp d args1) t1 -> entry_of1 defs L r (SApp d args2) t2 ->
+  create_type_ir r s t1 flat1 = Ok (Some ir1) -> create_type_ir r s t2 flat2 = Ok (Some ir2) ->
+  erase_ids ir1 = erase_ids ir2.
+Proof. exact one_item_full1. Qed.
+Print Assumptions C05_one_item1.
+
+(** real program registries all of whose interned instantiations (whatever boxes their labels
+    carry) are coincidence-free are [skeleton_consistent] *)
+Theorem C05_program_skeleton_consistent1 :
+  forall defs L r s (order_tp : bool -> tpath),
+  RegistryOf1 defs L r -> prelude_okb s = true -> order_resolves s order_tp ->
+  (forall sd, In sd defs ->
+     def_okb s sd = true /\ forallb (fun f => no_cow_cow (sf_ty f)) (def_sfields sd) = true /\
+     box_names_okb defs sd = true /\ forall lsb, sd_path sd <> order_path_of lsb) ->
+  (forall d1 d2 sd1 sd2,
+     nth_error defs d1 = Some sd1 -> nth_error defs d2 = Some sd2 -> sd_path sd1 = sd_path sd2 -> d1 = d2) ->
+  (forall id c d args sd,
+     L id = Some c -> peel1 c = SApp d args -> nth_error defs d = Some sd ->
+     instantiation_cf1 defs sd args = true /\ compact_fields_okb1 defs sd args = true) ->
+  (forall id X, In (id, X) r -> item_eligible s X = true ->
+     exists ir, create_type_ir r s X flat0 = Ok (Some ir)) ->
+  skeleton_consistent r s.
+Proof. exact program_skeleton_consistent1. Qed.
+Print Assumptions C05_program_skeleton_consistent1.
+
+Theorem C05_program_faithful1 :
+  forall defs L r s (order_tp : bool -> tpath) teq m,
+  RegistryOf1 defs L r -> prelude_okb s = true -> order_resolves s order_tp ->
+  (forall sd, In sd defs ->
+     def_okb s sd = true /\ forallb (fun f => no_cow_cow (sf_ty f)) (def_sfields sd) = true /\
+     box_names_okb defs sd = true /\ forall lsb, sd_path sd <> order_path_of lsb) ->
+  (forall d1 d2 sd1 sd2,
+     nth_error defs d1 = Some sd1 -> nth_error defs d2 = Some sd2 -> sd_path sd1 = sd_path sd2 -> d1 = d2) ->
+  (forall id c d args sd,
+     L id = Some c -> peel1 c = SApp d args -> nth_error defs d = Some sd ->
+     instantiation_cf1 defs sd args = true /\ compact_fields_okb1 defs sd args = true) ->
+  root_fresh s -> generate r s teq = Ok m -> Faithful r s m.
+Proof. exact program_faithful1. Qed.
+Print Assumptions C05_program_faithful1.
+
+(** the decidable checker is sound *)
+Theorem C05_registry_of1b_sound :
+  forall defs labels r,
+    registry_of1b defs labels r = true -> prelude_nodocs_b r = true -> RegistryOf1 defs (label_at labels) r.
+Proof. exact registry_of1b_sound. Qed.
+Print Assumptions C05_registry_of1b_sound.
+
+(** non-vacuity on a registry with identity duplicates (shape: harness/src/corpus.rs
+    [identity_programs]): [i::Ids<T> { a: Vec<Box<Vec<T>>>, b: Vec<Vec<T>>, d: VecDeque<Box<u8>>,
+    e: Vec<u8>, r: T }] at [u16] - ids 2 / 4, 3 / 5 and 6 / 8 are pairs of entries with equal
+    content.  With the interner's labels in [ident1] form [RegistryOf1] holds, with the same labels
+    in [canon] form every entry is still right but the labelling is not injective and [RegistryOf]
+    is false; every hypothesis of [C05_skeleton_is_source1] holds, the IR exists and its erased
+    form is [ir_of_source] (recomputed), generation succeeds *)
+Theorem C05_example_identity_duplicates :
+  (RegistryOf1 id1_defs (label_at id1_labels) id1_reg /\ registry_of1b id1_defs id1_labels id1_reg = true) /\
+  (registry_entries_ofb id1_defs id1_canon_labels id1_reg = true /\
+   labels_injectiveb id1_canon_labels = false /\
+   registry_ofb id1_defs id1_canon_labels id1_reg = false /\
+   label_at id1_canon_labels 2 = label_at id1_canon_labels 4 /\
+   label_at id1_canon_labels 3 = label_at id1_canon_labels 5 /\
+   label_at id1_canon_labels 6 = label_at id1_canon_labels 8) /\
+  ~ RegistryOf id1_defs (label_at id1_canon_labels) id1_reg /\
+  (prelude_okb ex5_s = true /\ order_resolves ex5_s ex5_otp) /\
+  (forall sd, In sd id1_defs -> def_okb ex5_s sd = true) /\
+  nth_error id1_defs 0 = Some id1_sd /\
+  forallb (fun f => no_cow_cow (sf_ty f)) (def_sfields id1_sd) = true /\ box_names_okb id1_defs id1_sd = true /\
+  instantiation_cf1 id1_defs id1_sd [SPrimT PU16] = true /\
+  compact_fields_okb1 id1_defs id1_sd [SPrimT PU16] = true /\
+  label_at id1_labels 0 = Some (SApp 0 [SPrimT PU16]) /\ resolve id1_reg 0 = Some (id1_ids 1 2 4 6 8) /\
+  (exists ir, create_type_ir id1_reg ex5_s (id1_ids 1 2 4 6 8) flat0 = Ok (Some ir) /\
+              erase_ids ir = ir_of_source id1_defs ex5_s ex5_otp id1_sd) /\
+  is_ok (generate id1_reg ex5_s (types_equal id1_reg)) = true.
+Proof.
+  exact (conj (conj id1_RegistryOf1 id1_registry_of1b)
+              (conj id1_canon_labels_not_injective (conj id1_not_RegistryOf id1_hypotheses))).
+Qed.
+Print Assumptions C05_example_identity_duplicates.
+
+(** [RegistryOf] does not imply [RegistryOf1] for the same labelling, and the [ident1] labelling is
+    no function of the [canon] labelling: the registry of the first example ([y: Box<Vec<T>>]) has
+    the [canon] label [Vec<u16>] on id 2 and the [ident1] label [Box<Vec<u16>>] (registered under
+    the TypeId of [Vec<u16>], not of [[u16]]); written [y: Vec<T>] the registry and its [canon]
+    labels are the same, the [ident1] label is [Vec<u16>].  The old examples otherwise satisfy the
+    new discipline and the restated coincidence-freeness *)
+Theorem C05_example_labellings :
+  (RegistryOf ex5_defs ex5_L ex5_reg /\ ~ RegistryOf1 ex5_defs ex5_L ex5_reg /\
+   RegistryOf1 ex5_defs (label_at ex5_labels1) ex5_reg) /\
+  (label_at ex5_labels 2 = Some (canon (SBox (SVec (SPrimT PU16)))) /\
+   label_at ex5_labels1 2 = Some (ident1 (SBox (SVec (SPrimT PU16)))) /\
+   registry_of1b ex5_defs ex5_labels ex5_reg = false /\ registry_ofb ex5_defs ex5_labels1 ex5_reg = false) /\
+  (registry_of1b ex6_defs ex6_labels ex6_reg = true /\ registry_of1b ex7_defs ex7_labels ex7_reg = true /\
+   registry_of1b f19_defs f19_labels f19_reg = true /\ registry_of1b f19b_defs f19b_labels f19b_reg = true) /\
+  instantiation_cf1 ex5_defs ex5_sd [SPrimT PU16; SPrimT PStr] = true /\
+  instantiation_cf1 ex5_defs ex5_sd [SPrimT PBool; SPrimT PStr] = true /\
+  compact_fields_okb1 ex5_defs ex5_sd [SPrimT PU16; SPrimT PStr] = true /\
+  compact_fields_okb1 ex5_defs ex5_sd [SPrimT PBool; SPrimT PStr] = true /\
+  instantiation_cf1 ex6_defs ex6_sd [SPrimT PU16] = true /\ instantiation_cf1 ex6_defs ex6_sd [SPrimT PBool] = true /\
+  compact_fields_okb1 ex6_defs ex6_sd [SPrimT PU16] = true /\ compact_fields_okb1 ex6_defs ex6_sd [SPrimT PBool] = true /\
+  instantiation_cf1 ex7_defs ex7_sd [SPrimT PU16] = true /\ instantiation_cf1 ex7_defs ex7_sd [SPrimT PBool] = true /\
+  instantiation_cf1 f19_defs (nth 0 f19_defs pe_default) [SPrimT PU8; SVec (SPrimT PU8)] = true /\
+  instantiation_cf1 f19_defs (nth 0 f19_defs pe_default) [SPrimT PU16; SVec (SPrimT PU16)] = true /\
+  instantiation_cf1 f19_defs (nth 1 f19_defs pe_default) [SPrimT PU8] = true /\
+  instantiation_cf1 f19b_defs (nth 0 f19b_defs pe_default) f19b_args1 = true /\
+  instantiation_cf1 f19b_defs (nth 0 f19b_defs pe_default) f19b_args2 = true.
+Proof.
+  exact (conj (conj ex5_RegistryOf (conj ex5_canon_labels_not_RegistryOf1 ex5_RegistryOf1))
+              (conj ex5_examples (conj examples_registry_of1b examples_cf1))).
+Qed.
+Print Assumptions C05_example_labellings.
+
+(** the old discipline implies the new one FOR THE SAME LABELLING exactly on programs where [canon]
+    has nothing to do beyond the one identity step: on the closed field types of every labelled
+    instantiation [canon] and [ident1] agree ([fields_ident1_canon], decidable:
+    [fields_ident1_canonb]; no Box / VecDeque below the top of a field type, no Box on top of
+    Vec / VecDeque / String / Box).  Beyond that condition it does not
+    ([C05_example_labellings]), and what [RegistryOf] describes there (one entry shared by
+    [Vec<Box<T>>] and [Vec<T>]) is not a registry scale-info produces *)
+From V Require Import Proofs.RegistryOf1Compare.
+
+Theorem C05_RegistryOf_implies_RegistryOf1 :
+  forall defs L r,
+    RegistryOf defs L r ->
+    (forall id d args sd sf,
+       L id = Some (SApp d args) -> nth_error defs d = Some sd -> In sf (def_sfields sd) ->
+       let c := subst_src args (sf_ty sf) in
+       let c' := canon (subst_src args (sf_ty sf)) in
+       (if sf_compact_attr sf then SCompactT c' else c') = ident1 (if sf_compact_attr sf then SCompactT c else c)) ->
+    RegistryOf1 defs L r.
+Proof. exact RegistryOf_RegistryOf1. Qed.
+Print Assumptions C05_RegistryOf_implies_RegistryOf1.
+
+Theorem C05_fields_ident1_canonb_sound :
+  forall defs labels,
+    fields_ident1_canonb defs labels = true -> fields_ident1_canon defs (label_at labels) /\
+    (fields_ident1_canonb ex6_defs ex6_labels = true /\ fields_ident1_canonb ex7_defs ex7_labels = true /\
+     fields_ident1_canonb f19_defs f19_labels = true /\ fields_ident1_canonb f19b_defs f19b_labels = true /\
+     fields_ident1_canonb ex5_defs ex5_labels = false).
+Proof. exact fields_ident1_canonb_sound_examples. Qed.
+Print Assumptions C05_fields_ident1_canonb_sound.
+
+(** ... concretely: [a::Foo<T> { x: Vec<Box<T>>, y: Vec<T> }] at [u16] with ONE sequence entry for
+    both fields (what an interner that identifies types up to [canon] produces) satisfies
+    [RegistryOf], and no labelling at all makes it a [RegistryOf1] registry *)
+Theorem C05_example_canon_registry_is_not_real :
+  RegistryOf leg_defs (label_at leg_labels) leg_reg /\ forall L, ~ RegistryOf1 leg_defs L leg_reg.
+Proof. exact leg_example. Qed.
+Print Assumptions C05_example_canon_registry_is_not_real.
+
+(** ** "all instantiations of one definition yield one and the same item" on real registries:
+    [types_equal] answers "equal" on two coincidence-free instantiations of one definition, so the
+    generation loop does not fail with DuplicateTypePath and [ensure_unique] keeps them together.
+    These are [C03_equal_complete_partial], [C04_instantiations_stay_partial],
+    [C04_program_no_duplicate_path_partial], [C04_program_untouched_partial] (Properties/C03.v,
+    C04.v, Proofs/TeqComplete.v) with [RegistryOf1] / [instantiation_cf1] for [RegistryOf] /
+    [instantiation_cf] and without [map canon args = args] (Proofs/TeqComplete1.v: the
+    abstract-term simulation with the one-step identity; below a plain field type the instances
+    are compared as written, [inj_raw]).  The two entries may be registered for boxed forms of the
+    instantiations ([peel1 l = SApp d args]); [Foo<Vec<Box<u16>>>] and [Foo<Vec<u16>>], which have one
+    [canon] form and two entries, are covered ([C05_example_types_equal_duplicates]).
+    PARTIAL for the same reason as the originals: the fragment [teq_program_okb] (no
+    [#[codec(compact)]] field; field types without Box / VecDeque, parameters only directly or
+    under Vec / array / tuple / Compact / Option / Result / Range / Cow); outside it the statement
+    is false ([C04_instantiations_stay_cf_refuted]). *)
+From V Require Import Model.Derives Model.Equal Model.WellFormed Proofs.KeepFirst Proofs.DedupProofs Proofs.TeqComplete1.
+
+Theorem C05_instantiations_judged_equal1_partial :
+  forall defs L r,
+  RegistryOf1 defs L r ->
+  forall d sd, nth_error defs d = Some sd -> teq_program_okb sd = true ->
+  forall args1 args2,
+  instantiation_cf1 defs sd args1 = true -> instantiation_cf1 defs sd args2 = true ->
+  forall id1 id2 l1 l2, L id1 = Some l1 -> L id2 = Some l2 ->
+  peel1 l1 = SApp d args1 -> peel1 l2 = SApp d args2 ->
+  types_equal r id1 id2 = Ok true.
+Proof. exact teq_instantiations_labels1. Qed.
+Print Assumptions C05_instantiations_judged_equal1_partial.
+
+Theorem C05_program_no_duplicate_path1_partial :
+  forall defs L r s,
+  RegistryOf1 defs L r -> ids_consistent r = true ->
+  (forall sd, In sd defs -> teq_program_okb sd = true /\ forall lsb, sd_path sd <> order_path_of lsb) ->
+  (forall d1 d2 sd1 sd2,
+     nth_error defs d1 = Some sd1 -> nth_error defs d2 = Some sd2 -> sd_path sd1 = sd_path sd2 -> d1 = d2) ->
+  (forall id c d args sd,
+     L id = Some c -> peel1 c = SApp d args -> nth_error defs d = Some sd ->
+     instantiation_cf1 defs sd args = true) ->
+  Forall (fun c : cmp => types_equal r (fst (fst c)) (snd (fst c)) = Ok true) (comparisons r s).
+Proof. exact program_comparisons_equal1. Qed.
+Print Assumptions C05_program_no_duplicate_path1_partial.
+
+Theorem C05_program_generates1_partial :
+  forall defs L r s,
+  RegistryOf1 defs L r -> ids_consistent r = true ->
+  (forall sd, In sd defs -> teq_program_okb sd = true /\ forall lsb, sd_path sd <> order_path_of lsb) ->
+  (forall d1 d2 sd1 sd2,
+     nth_error defs d1 = Some sd1 -> nth_error defs d2 = Some sd2 -> sd_path sd1 = sd_path sd2 -> d1 = d2) ->
+  (forall id c d args sd,
+     L id = Some c -> peel1 c = SApp d args -> nth_error defs d = Some sd ->
+     instantiation_cf1 defs sd args = true) ->
+  forall flat, flatten (s_dreg s) r = Ok flat -> all_ok r s flat r ->
+               exists m, generate r s (types_equal r) = Ok m.
+Proof. exact program_generates1. Qed.
+Print Assumptions C05_program_generates1_partial.
+
+Theorem C05_program_untouched1_partial :
+  forall defs L r,
+  RegistryOf1 defs L r -> ids_consistent r = true ->
+  (forall sd, In sd defs -> teq_program_okb sd = true /\ forall lsb, sd_path sd <> order_path_of lsb) ->
+  (forall d1 d2 sd1 sd2,
+     nth_error defs d1 = Some sd1 -> nth_error defs d2 = Some sd2 -> sd_path sd1 = sd_path sd2 -> d1 = d2) ->
+  (forall id c d args sd,
+     L id = Some c -> peel1 c = SApp d args -> nth_error defs d = Some sd ->
+     instantiation_cf1 defs sd args = true) ->
+  ensure_unique r = Ok r.
+Proof. exact program_dedup_untouched1. Qed.
+Print Assumptions C05_program_untouched1_partial.
+
+(** non-vacuity: [a::Pt<T> { x: T, ys: Vec<T> }] at [Vec<Box<u16>>] and at [Vec<u16>]: one [canon]
+    form, two entries (as are [Vec<Box<u16>>] / [Vec<u16>], [Vec<Vec<Box<u16>>>] / [Vec<Vec<u16>>]);
+    [RegistryOf1] holds, the [canon] labels are not injective, both instantiations are
+    coincidence-free, [types_equal] answers "equal", generation succeeds *)
+Theorem C05_example_types_equal_duplicates :
+  RegistryOf1 tq1_defs (label_at tq1_labels) tq1_reg /\
+  labels_injectiveb (map (fun o => match o with Some c => Some (canon c) | None => None end) tq1_raw_labels) = false /\
+  nth_error tq1_defs 0 = Some tq1_sd /\ teq_program_okb tq1_sd = true /\
+  instantiation_cf1 tq1_defs tq1_sd tq1_args1 = true /\ instantiation_cf1 tq1_defs tq1_sd tq1_args2 = true /\
+  label_at tq1_labels 0 = Some (SApp 0 tq1_args1) /\ label_at tq1_labels 4 = Some (SApp 0 tq1_args2) /\
+  map canon tq1_args1 = map canon tq1_args2 /\
+  types_equal_res tq1_reg 0 4 = Ok true /\
+  is_ok (generate tq1_reg ex5_s (types_equal tq1_reg)) = true.
+Proof. exact tq1_example. Qed.
+Print Assumptions C05_example_types_equal_duplicates.
